@@ -26,6 +26,7 @@ type worldCfg struct {
 	Fleet     bool // allow a fleet-mode group (costs >= 1 s of real time when it scales up)
 	History   bool // initial world of a history: whole-unit allocatable, mostly well-formed
 	NoDry     bool
+	Ties      bool // allow nodes of one group to share a creation second (the order among equals is Go's sort's, not any property's)
 	Dry       bool // force a dry switch
 	Only      string
 }
@@ -103,6 +104,8 @@ type ggen struct {
 	npods  int
 	fleet  bool
 	ties   bool
+	zeroTime bool           // a node with the zero creation time exists already
+	futures  map[int64]bool // creation seconds in the future already used
 	big    bool
 	others []string // names of the other groups' label values
 }
@@ -225,10 +228,19 @@ func (g *wgen) node(gg *ggen, i int, prevAges []int64) (*v1.Node, int64) {
 	n.Labels = map[string]string{gg.o.LabelKey: gg.o.LabelValue}
 	if (!g.cfg.History || g.cfg.Malformed) && !gg.big { // (Go's sort is stable only up to 12 elements: no ties in larger groups)
 		switch {
-		case g.p(0.03):
+		case g.p(0.03) && (gg.ties || !gg.zeroTime):
 			n.CreationTimestamp = metav1.Time{}
+			gg.zeroTime = true
 		case g.p(0.03):
-			n.CreationTimestamp = metav1.NewTime(time.Unix(g.base+int64(60+rng.Intn(7200)), 0))
+			future := g.base + int64(60+rng.Intn(7200))
+			for gg.futures[future] && !gg.ties {
+				future++
+			}
+			if gg.futures == nil {
+				gg.futures = map[int64]bool{}
+			}
+			gg.futures[future] = true
+			n.CreationTimestamp = metav1.NewTime(time.Unix(future, 0))
 		}
 	}
 	// taints, in any order
@@ -412,7 +424,7 @@ func (g *wgen) group(s *scanSpec, name string, idx int, others []string) {
 			}
 		}
 	}
-	gg.ties = nn <= 12 && g.p(0.3)
+	gg.ties = g.cfg.Ties && nn <= 12 && g.p(0.3) // equal creation times only where the sort order among equals is the subject (C07, C08)
 	gg.big = nn > 12
 	auto := g.p(0.12)
 	cfgMin, cfgMax := o.MinNodes, o.MaxNodes
